@@ -150,7 +150,7 @@ def not_closed_edges(body, hpath):
 CLEANUP_METHODS = re.compile(r"^(unregister(_\w+)?|remove_waiter|cancel_wait)$")
 
 
-GateStatus = namedtuple("GateStatus", "ok bad needs gates delegated")
+GateStatus = namedtuple("GateStatus", "ok bad needs gates delegated consults")
 
 
 def gate_status(P, hs, body, hpath, memo=None, depth=0, own=frozenset()):
@@ -162,13 +162,14 @@ def gate_status(P, hs, body, hpath, memo=None, depth=0, own=frozenset()):
         memo = {}
     key = (body.id, hpath)
     if key in memo:
-        return memo[key] or GateStatus(True, [], 0, [], [])
+        return memo[key] or GateStatus(True, [], 0, [], [], False)
     memo[key] = None  # cycle guard: optimistic
     handle_adt = None
     # shared fields: union over handle types reachable under this path — find by type of the path root
     edges, gates = not_closed_edges(body, hpath)
     needs = []       # (event, why)
     delegated = []   # (event, target body id, ok)
+    gate_calls = []  # calls to delegates that themselves consult the flag on every path to their effects
     for e in body.events:
         if e.kind == "call":
             if e.callee in mir.TRANSPARENT_METHODS:
@@ -180,11 +181,16 @@ def gate_status(P, hs, body, hpath, memo=None, depth=0, own=frozenset()):
                 tgt = P.body(e.callee_resolved)
                 if tgt is not None and tgt.id in own:
                     delegated.append((e, tgt.id, True))  # decided as its own instance
+                    sub = gate_status(P, hs, effective_body(P, tgt), tgt.local_name(whole[0] + 1), memo, depth + 1, own) if depth < 8 else None
+                    if sub is not None and sub.ok and sub.consults:
+                        gate_calls.append(e)
                 elif tgt is not None and depth < 8:
                     tb = effective_body(P, tgt)
                     pname = tgt.local_name(whole[0] + 1)
                     sub = gate_status(P, hs, tb, pname, memo, depth + 1, own)
                     delegated.append((e, tb.id, sub.ok))
+                    if sub.ok and sub.consults:
+                        gate_calls.append(e)
                     if not sub.ok:
                         needs.append((e, f"passes the handle to ungated {tgt.id}"))
                 # foreign callee receiving the whole handle (Clone, Debug, mem::forget): no channel effect
@@ -225,11 +231,12 @@ def gate_status(P, hs, body, hpath, memo=None, depth=0, own=frozenset()):
         # (Cleanup on the closed branch — unregistering a waiter before returning Closed — is a
         # legitimate use of shared state after the flag was read as true, so the obligation is
         # domination by the branch, not by its not-closed edge.)
-        sw = frozenset((b, len(body.blocks[b]["s"])) for b, _ in gates)
+        sw = frozenset((b, len(body.blocks[b]["s"])) for b, _ in gates) | frozenset(g.pos for g in gate_calls)
         reach = body.entry_reach_set(removed=sw) if sw else None
         for e, why in needs:
             if reach is None or e.pos in reach:
                 bad.append((e, why))
-    st = GateStatus(not bad, bad, len(needs), gates, delegated)
+    consults = bool(gates) or (bool(gate_calls) and not needs)
+    st = GateStatus(not bad, bad, len(needs), gates, delegated, consults)
     memo[key] = st
     return st
